@@ -12,6 +12,7 @@ import Mrpro.Model.Load
 import Mrpro.Model.KDataOps
 import Mrpro.Model.MoveData
 import Mrpro.Model.Dcf
+import Mrpro.Model.Autograd
 open Lean M M.Proto
 
 def getTrajComp (j : Json) (k : String) : Except String TrajComp := do
@@ -384,6 +385,11 @@ def handle (j : Json) : Except String Json := do
       pure (Json.mkObj [("leaves", Json.arr (r.leaves.map (fun p => Json.mkObj [("id", Json.num (JsonNumber.fromNat p.1)), ("kind", Json.str (showDKind p.2.kind)),
         ("bits", Json.num (JsonNumber.fromNat p.2.bits))])).toArray)])
   | "dcf1d" => pure (Json.mkObj [("w", ratsJson (dcf1d (← getRats j "x")))])
+  | "matmul_backward" =>
+      let m ← getRats j "m"; let g ← getRats j "g"
+      let r := matmulBackward (← getBool j "x_complex") (← getBool j "m_complex") (← getBool j "g_complex")
+        (⟨m.getD 0 0, m.getD 1 0⟩ : CPair Rat) ⟨g.getD 0 0, g.getD 1 0⟩
+      pure (Json.mkObj [("out", ratsJson [r.re, r.im])])
   | "norm_dims" =>
       let ndim ← getNat j "ndim"; let dims ← getInts j "dims"
       pure (match dims.mapM (normIndex ndim) with
